@@ -35,6 +35,12 @@ func genTreeName(rt *rapid.T, label string, allowDot bool, used map[string]bool)
 			rs[i] = rapid.SampledFrom(treeNameRunes).Draw(rt, fmt.Sprintf("%s_r%d_%d", label, tries, i))
 		}
 		s := strings.TrimSpace(string(rs))
+		if len(s) > 0 && rapid.IntRange(0, 4).Draw(rt, fmt.Sprintf("%s_hi%d", label, tries)) == 0 {
+			// a byte beyond ASCII (Mac Roman e-acute, a UTF-8 lead byte, 0xff): item names are bytes, and what is uploaded
+			// comes back under the same bytes
+			i := rapid.IntRange(0, len(s)-1).Draw(rt, fmt.Sprintf("%s_hipos%d", label, tries))
+			s = s[:i] + string([]byte{rapid.SampledFrom([]byte{0x8e, 0xc3, 0xff, 0xa9}).Draw(rt, fmt.Sprintf("%s_hib%d", label, tries))}) + s[i+1:]
+		}
 		if rapid.IntRange(0, 3).Draw(rt, fmt.Sprintf("%s_ext%d", label, tries)) == 0 {
 			s += rapid.SampledFrom([]string{".txt", ".sit", ".jpg"}).Draw(rt, fmt.Sprintf("%s_e%d", label, tries))
 		}
